@@ -93,8 +93,8 @@ TEMPLATES = [
 CONSTRAINTS = {
     0: ['int(<total>) > 2000', 'str(<k>) == "5"', 'int(<c>) > 20 and int(<total>) % 2 == 0', 'str(<total>) == "1111"', 'int(<k>) == 13', 'int(<c>) == 23'],
     1: ['int(<x>) > 2000', 'str(<r>) == "77"', 'int(<r>) > 30', 'str(<x>).startswith("3")', 'int(<c>) > 15'],
-    2: ['int(<m>) > 20', 'str(<m>) == "5"', 'len(str(<c>)) > 2'],
-    3: ['str(<d>) == "1-1"', 'len(str(<start>)) > 12', 'forall <r> in <rec>: str(<r>.<d>) != "2-2"'],
+    2: ['int(<m>) > 20', 'str(<m>) == "5"', 'len(str(<c>)) > 2', 'len(str(<c>)) > 45 and int(<m>) > 20'],
+    3: ['str(<d>) == "1-1"', 'len(str(<start>)) > 12', 'len(str(<start>)) > 40 and str(<d>) == "1-1"', 'forall <r> in <rec>: str(<r>.<d>) != "2-2"'],
     4: ['str(<up>) != "AA"', 'str(<low>) == "ab"', 'str(<up>) == "BC"', 'len(str(<c>)) > 3'],
 }
 
@@ -242,7 +242,10 @@ def do_op(w, rng):
             if not top_level:
                 return None
             try:
-                new = g.fuzz(nt)
+                # as SimpleMutation.mutate does: the node budget left for the new subtree is what the individual leaves of the operator's
+                # max_nodes (default 50) -- negative for individuals that are larger than that
+                b = rng.choice([None, 50, 12, 4, 0])
+                new = g.fuzz(nt) if b is None else g.fuzz(nt, max_nodes=n.size() + (b - t.size()))
             except FandangoError:
                 return None
             a = w.field_of(new)[1]
